@@ -291,6 +291,11 @@ func execC05(sc c05Scenario) *vstat.Outcome {
 	check("pass", sc.AEs[1], r8, hdrU)
 	r9 := get(uriU, specU, sc.AEs[2])
 	check("pass2", sc.AEs[2], r9, hdrU)
+	// the stored entry again, after other responses went through the compressors
+	r10 := get(uriC, specC, sc.AEs[0])
+	check("hit-after-others", sc.AEs[0], r10, hdr)
+	r11 := get(uriC, specC, sc.AEs[3])
+	check("hit-after-others2", sc.AEs[3], r11, hdr)
 
 	thr := map[string]int{"": 1024, "1": 1, "100": 100, "1kb": 1024, "1mb": 1 << 20}[sc.MinLength]
 	nonGzipClient := false
